@@ -13,7 +13,9 @@
    TLC checks: the hit is on the surface; S, S', nrm are unit; the reflected ray mirrors S about the true normal; the vector
    form of Snell's law  n (S x nrm) = n' (S' x nrm);  the frame transformation is a rigid motion and its own inverse.
    A second surface (a plane mirror placed where the bent ray arrives at a chosen distance) extends the trace to a
-   two-surface prescription.  Variant "grad-normal" uses the un-normalised gradient as the normal in the refraction formula
+   two-surface prescription; a three-surface prescription (the surface, an evaluation plane INSIDE the medium, a plane back
+   into the ambient medium) carries the running refractive index: only refracting surfaces change it (NAfter, GlassLaw).
+   Off-axis sections (Shifts) describe the same parent surface in coordinates whose origin is the parent's point (dx, dy).  Variant "grad-normal" uses the un-normalised gradient as the normal in the refraction formula
    (the pinned tree) and must violate SnellLaw off axis.                                                              *)
 EXTENDS Integers, Sequences, FiniteSets, TLC, Json, Rat
 
@@ -22,10 +24,11 @@ CONSTANTS Hits,      \* set of records [kind, c, k, q (point, 3 Rats), phi, nrm,
           Bends,     \* set of records [typ |-> "reflect"] or [typ |-> "refract", mu, ci2, si2] valid for a given sinI (filtered)
           Frames,    \* set of records [rot (3x3 of Rats), pos (3 Rats)]
           Lens,      \* distances from the start point to the hit
+          Shifts,    \* off-axis sections: <<dx, dy>>, the section's local origin in the parent's coordinates (one of them zero)
           Variant, EmitOn
 
-VARIABLES hit, inc, bend, frame, len, done
-vars == <<hit, inc, bend, frame, len, done>>
+VARIABLES hit, inc, bend, frame, len, shift, done
+vars == <<hit, inc, bend, frame, len, shift, done>>
 
 Z == <<0, 1>>
 One == <<1, 1>>
@@ -45,9 +48,16 @@ Sag(h) == IF h.kind = "plane" THEN Z ELSE RDiv(RMul(h.c, Rho2(h.q)), RAdd(One, h
 Grad(h) == IF h.kind = "plane" THEN <<Z, Z, One>>
            ELSE <<RNeg(RDiv(RMul(h.c, h.q[1]), h.phi)), RNeg(RDiv(RMul(h.c, h.q[2]), h.phi)), One>>
 
+\* ---- off-axis sections: the SAME parent surface described in coordinates whose origin is the parent's point (dx, dy):
+\* sag_off(x, y) = sag_parent(x + dx, y + dy); the hit point in those coordinates is QLoc, its normal is the parent's normal at q
+QLoc == <<RSub(hit.q[1], shift[1]), RSub(hit.q[2], shift[2]), hit.q[3]>>
+SagOff(p) == IF hit.kind = "plane" THEN Z
+             ELSE RDiv(RMul(hit.c, RAdd(RMul(RAdd(p[1], shift[1]), RAdd(p[1], shift[1])), RMul(RAdd(p[2], shift[2]), RAdd(p[2], shift[2])))), RAdd(One, hit.phi))
+LocalOrigin == shift # <<Z, Z>> /\ QLoc[1] = Z /\ QLoc[2] = Z
+
 \* ---- the ray, in the surface's local frame
 SIn == VAdd(VScale(inc[1], hit.nrm), VScale(inc[2], hit.tau))
-P0 == VSub(hit.q, VScale(len, SIn))
+P0 == VSub(QLoc, VScale(len, SIn))
 \* normal as used by the bend: the unit normal (design) or the raw gradient (pinned, refraction only)
 NrmFor(b) == IF Variant = "grad-normal" /\ b.typ = "refract" THEN Grad(hit) ELSE hit.nrm
 SOut == IF bend.typ = "reflect" THEN VSub(SIn, VScale(RMul(<<2, 1>>, Dot(SIn, hit.nrm)), hit.nrm))
@@ -64,7 +74,8 @@ ToLocalS(v) == MatVec(frame.rot, v)
 ValidBend(b, i) == b.typ = "reflect" \/ (RMul(b.mu, i[2]) = b.si2 /\ RAdd(RMul(b.ci2, b.ci2), RMul(b.si2, b.si2)) = One)
 Init == /\ hit \in Hits /\ inc \in Incid /\ frame \in Frames /\ len \in Lens /\ done = FALSE
         /\ bend \in {b \in Bends : ValidBend(b, inc)}
-Compute == done = FALSE /\ done' = TRUE /\ UNCHANGED <<hit, inc, bend, frame, len>>
+        /\ shift \in {sh \in Shifts : (hit.kind = "plane" => sh = <<Z, Z>>) /\ (sh[1] = Z \/ sh[2] = Z)}
+Compute == done = FALSE /\ done' = TRUE /\ UNCHANGED <<hit, inc, bend, frame, len, shift>>
 Next == Compute
 Spec == Init /\ [][Next]_vars
 
@@ -73,7 +84,7 @@ MenuSound == /\ (hit.kind # "plane") => RMul(hit.phi, hit.phi) = RSub(One, RMul(
              /\ Dot(hit.nrm, hit.nrm) = One /\ Dot(hit.tau, hit.tau) = One /\ Dot(hit.nrm, hit.tau) = Z
              /\ Cross(hit.nrm, Grad(hit)) = Zero3 /\ RLess(Z, Dot(hit.nrm, Grad(hit)))         \* the true surface normal, towards +z
              /\ RAdd(RMul(inc[1], inc[1]), RMul(inc[2], inc[2])) = One
-OnSurface == hit.q[3] = Sag(hit) /\ VAdd(P0, VScale(len, SIn)) = hit.q
+OnSurface == hit.q[3] = Sag(hit) /\ SagOff(QLoc) = QLoc[3] /\ VAdd(P0, VScale(len, SIn)) = QLoc
 UnitLaw == Dot(SIn, SIn) = One /\ (Variant = "design" => Dot(SOut, SOut) = One)
 ReflectLaw == bend.typ = "reflect" =>
    /\ Dot(SOut, hit.nrm) = RNeg(Dot(SIn, hit.nrm))                                   \* mirrored about the normal ...
@@ -82,20 +93,39 @@ SnellLaw == bend.typ = "refract" =>
    /\ Cross(SIn, hit.nrm) = VScale(RInv(bend.mu), Cross(SOut, hit.nrm))              \* n (S x nrm) = n' (S' x nrm), mu = n / n'
    /\ Dot(SOut, hit.nrm) = bend.ci2                                                  \* cos of the angle of refraction
    /\ Dot(Cross(SIn, hit.nrm), SOut) = Z                                             \* plane of incidence
-RigidFrame == /\ MatVec(frame.rot, MatVec(Transpose(frame.rot), hit.q)) = hit.q       \* Rot Rot^T = I (on a vector)
+RigidFrame == /\ MatVec(frame.rot, MatVec(Transpose(frame.rot), hit.q)) = hit.q      \* Rot Rot^T = I (on a vector)
               /\ ToLocalP(ToGlobalP(P0)) = P0 /\ ToLocalS(ToGlobalS(SIn)) = SIn
               /\ Dot(ToGlobalS(SIn), ToGlobalS(SOut)) = Dot(SIn, SOut)
               /\ Dot(ToGlobalS(SIn), ToGlobalS(SIn)) = One
 
 \* second surface: a plane mirror normal to the global z axis, placed where the bent ray is after travelling `len` again
-P1g == ToGlobalP(hit.q)
+P1g == ToGlobalP(QLoc)
 S1g == ToGlobalS(SOut)
 P2g == VAdd(P1g, VScale(len, S1g))
 S2g == <<S1g[1], S1g[2], RNeg(S1g[3])>>
 TwoSurface == /\ P2g[3] = RAdd(P1g[3], RMul(len, S1g[3]))
               /\ Dot(S2g, S2g) = Dot(S1g, S1g)
 
-Rec == [hit |-> hit, inc |-> inc, bend |-> bend, frame |-> frame, len |-> len,
+\* a prescription carries the index of the medium the ray is in: a refracting surface replaces it by its own index, a mirror or
+\* an evaluation plane leaves it alone.  Indices relative to the ambient medium (= 1); the first surface's glass is 1 / mu.
+NAfter(typ, nprev, nsurf) == IF typ = "refract" THEN nsurf ELSE nprev
+N1 == NAfter(bend.typ, One, RInv(bend.mu))
+N2 == NAfter("eval", N1, Z)                                  \* an evaluation plane inside the medium (has no index of its own)
+\* third surface: a plane normal to the global z axis one unit further on, refracting back into the ambient medium
+Mu3 == RDiv(N2, One)
+N3 == NAfter("refract", N2, One)
+P3g == VAdd(P2g, VScale(RInv(S1g[3]), S1g))
+ExitTan == <<RMul(Mu3, S1g[1]), RMul(Mu3, S1g[2])>>          \* n (S x z) is conserved: the tangential part scales by n / n'
+ExitOk == RLess(Z, S1g[3]) /\ RLess(RAdd(RMul(ExitTan[1], ExitTan[1]), RMul(ExitTan[2], ExitTan[2])), One)
+IdentityRot == <<<<One, Z, Z>>, <<Z, One, Z>>, <<Z, Z, One>>>>
+GlassLaw == /\ N2 = N1 /\ N3 = One
+            /\ (bend.typ = "reflect") => (N1 = One /\ Mu3 = One)
+            /\ (bend.typ = "refract") => RMul(Mu3, bend.mu) = One
+            \* a plane-parallel plate restores the direction of the ray
+            /\ (hit.kind = "plane" /\ frame.rot = IdentityRot /\ bend.typ = "refract" /\ RLess(Z, S1g[3])) => ExitTan = <<ToGlobalS(SIn)[1], ToGlobalS(SIn)[2]>>
+
+Rec == [hit |-> hit, inc |-> inc, bend |-> bend, frame |-> frame, len |-> len, shift |-> shift, localorigin |-> LocalOrigin,
+        p3 |-> IF RLess(Z, S1g[3]) THEN P3g ELSE Zero3, exittan |-> ExitTan, exitok |-> ExitOk,
         p0 |-> ToGlobalP(P0), s0 |-> ToGlobalS(SIn), p1 |-> P1g, s1 |-> S1g, p2 |-> P2g, s2 |-> S2g, mirrorz |-> P2g[3],
         p0local |-> P0, s0local |-> SIn, s1local |-> SOut, forward |-> RLess(Z, S1g[3])]
 Emit == (EmitOn /\ done) => PrintT(<<"EMIT", ToJson(Rec)>>)
